@@ -16,6 +16,10 @@ Run:  /venv/bin/python tools/gen/tests/test_G5.py             (exit 0 = pass)
                                                               source of these plug-ins, old plug-ins (git rev
                                                               ORIG_REV) vs new ones; a change the old plug-in
                                                               noticed must be noticed by the new one
+      /venv/bin/python tools/gen/tests/test_G5.py --probe     additionally: the harmless variants of the AArch64 parser
+                                                              and of marker_utils are RUN (subprocess importing the
+                                                              edited copy) on a small corpus and must behave like the
+                                                              unchanged sources -- a check of the test cases
       /venv/bin/python tools/gen/tests/test_G5.py -v          print every case
 """
 import glob
@@ -190,7 +194,30 @@ HISTORY_HARMLESS = [
     ("hidden operand loop variable renamed", [(IS, H_HIDDEN_LOOP, "            for hidden_op in isa_data.hidden_operands:\n"
                                                                   "                op = hidden_op\n")]),
 ]
+H_PICK = '''    def _pick_load_uops(self, table, wanted):
+        """micro-ops of the first load entry whose destination register class matches, else of the first entry"""
+        matching = [
+            entry[1]
+            for entry in table
+            if entry[0].dst is not None
+            and self._machine_model._check_operands(wanted, RegisterOperand(name=entry[0].dst))
+        ]
+        if not matching:
+            return table[0][1]
+        return matching[0]
+
+'''
+H_ANCHOR = "    def _handle_instruction_found(self, instruction_data, port_number, instruction_form, flags):\n"
+HISTORY_HARMLESS += [
+    ("choice of the load micro-ops extracted into a private method",
+     [(AS, H_COMP + H_IFELSE, "                            data_port_uops = self._pick_load_uops(load_perf_data, dummy_reg)\n"),
+      (AS, H_ANCHOR, H_PICK + H_ANCHOR)]),
+]
+
 HISTORY_REAL = [
+    ("private method that picks the load micro-ops returns a copy",
+     [(AS, H_COMP + H_IFELSE, "                            data_port_uops = self._pick_load_uops(load_perf_data, dummy_reg)\n"),
+      (AS, H_ANCHOR, H_PICK.replace("return matching[0]", "return list(matching[0])").replace("return table[0][1]", "return list(table[0][1])") + H_ANCHOR)]),
     ("default load list copied (one path only)", [(AS, "data_port_uops = load_perf_data[0][1]", "data_port_uops = list(load_perf_data[0][1])")]),
     ("load lists copied on both paths", [(AS, "data_port_uops = load_perf_data[0][1]", "data_port_uops = list(load_perf_data[0][1])"),
                                          (AS, "                                ldp[1]\n", "                                list(ldp[1])\n")]),
@@ -730,6 +757,111 @@ REPORT_REAL = [
     ("elif chain (seeded C13-m4 style)", [(FE, "        if length_warning:\n            warnings.append", "        elif length_warning:\n            warnings.append")]),
 ]
 
+# =========================================================================================== behaviour probe
+PROBE = r'''
+import sys, warnings
+warnings.simplefilter("ignore")
+from osaca.parser import ParserAArch64, ParserX86ATT
+from osaca.semantics.marker_utils import reduce_to_section
+pa, px = ParserAArch64(), ParserX86ATT()
+A64_LINES = """ldr x0, [sp, #16]
+ldr w1, [SP]
+str x2, [x3, xzr]
+ldr x4, [x5, wzr, uxtw #2]
+ldr x4, [x5, x6, lsl #3]
+ldr q1, [x7, x8, sxtx #4]
+ldr x9, [x10, w11, sxtw]
+ldr x1, [zr, sp]
+add x1, sp, #8
+mov x29, sp
+ld1 {v0.2d - v3.2d}, [x0], #64
+ld1 {v4.4s, v5.4s}, [x1]
+st1 {v6.s - v7.s}[2], [x2]
+ld4 {v0.b, v1.b, v2.b, v3.b}[15], [x9]
+stp x29, x30, [sp, #-16]!
+ldp x19, x20, [sp], #32
+prfm pldl1keep, [x1, #256]
+fmla v0.2d, v1.2d, v2.d[1]
+b.ne .L4
+""".splitlines()
+for line in A64_LINES:
+    try:
+        print("A64", repr(line), pa.parse_line(line))
+    except Exception as e:
+        print("A64", repr(line), type(e).__name__, e)
+X86 = """movl $111, %ebx
+.byte 100
+.byte 103
+.byte 144
+addq %rax, %rbx
+vaddpd %ymm0, %ymm1, %ymm2
+movl $222, %ebx
+.byte 100
+.byte 103
+.byte 144
+subq $1, %rcx
+"""
+A64 = """mov x1, #111
+.byte 213,3,32,31
+add x0, x0, x1
+// OSACA-END
+fadd d0, d0, d1
+mov x1, #222
+.byte 213,3,32,31
+sub x2, x2, #1
+"""
+for code, parser, names, cm in ((X86, px, ("x86", "X86", "aarch64", "riscv", ""), "# "), (A64, pa, ("aarch64", "AArch64", "x86", "arm"), "// ")):
+    lines = code.splitlines()
+    for text in (code, chr(10).join(lines[4:6]), cm + "OSACA-BEGIN" + chr(10) + code):
+        kernel = parser.parse_file(text)
+        for isa in names:
+            try:
+                print("RED", isa, [f.line_number for f in reduce_to_section(kernel, isa)])
+            except Exception as e:
+                print("RED", isa, type(e).__name__, e)
+'''
+
+
+def probe(box, edits):
+    """behaviour of the edited sources on a fixed corpus (AArch64 parser, reduce_to_section)"""
+    try:
+        box.apply(edits)
+        data = os.path.join(box.tmp, "osaca", "data")
+        if not os.path.exists(data):
+            os.symlink(os.path.join(SRC_REPO, "osaca", "data"), data)
+        env = dict(os.environ, PYTHONPATH=box.tmp, HOME=box.tmp)
+        r = subprocess.run([sys.executable, "-W", "ignore", "-c", PROBE], capture_output=True, text=True, env=env, cwd=box.tmp)
+        return r.stdout + ("\nSTDERR " + r.stderr[-400:] if r.returncode else "")
+    finally:
+        box.restore()
+
+
+def probe_cases(box):
+    """every harmless variant of the parser / marker sources must behave like the unchanged sources on the
+    corpus (the variants are meant to be behaviour-preserving: this checks the test, not the plug-in); every real
+    mutation of these sources that the corpus can see is counted"""
+    base = probe(box, [])
+    if "A64" not in base or "RED" not in base or "STDERR" in base:
+        print("probe does not run on the unchanged sources:\n" + base[-600:])
+        return 1, []
+    bad, rows = 0, []
+    for gen, harmless, real in SUITES:
+        if gen not in ("A64Grammar", "MarkerConsts"):
+            continue
+        same = 0
+        for name, edits in harmless:
+            out = probe(box, edits)
+            if out != base:
+                bad += 1
+                print("BAD  %-14s harmless variant changes the behaviour on the probe corpus: %s" % (gen, name))
+            else:
+                same += 1
+        seen = sum(1 for name, edits in real if probe(box, edits) != base)
+        rows.append("%s probe: %d/%d harmless variants behave identically on the corpus; %d/%d real mutations visible on it"
+                    % (gen, same, len(harmless), seen, len(real)))
+    return bad, rows
+
+
 SUITES = [
     ("HistoryCfg", HISTORY_HARMLESS, HISTORY_REAL),
     ("WorkersConsts", WORKERS_HARMLESS, WORKERS_REAL),
@@ -862,6 +994,10 @@ def main():
     try:
         bad, summary = main_cases(box)
         rows = []
+        if "--probe" in sys.argv:
+            b3, prow = probe_cases(box)
+            bad += b3
+            summary += prow
         if "--seeded" in sys.argv:
             b2, rows = seeded(box)
             bad += b2
